@@ -141,6 +141,8 @@ def replay_twin(ctx, obj, prop):
 def replay(ctx, obj):
     if obj.get("kind") == "twin-units":
         return replay_twin(ctx, obj, "C12")
+    if obj.get("kind") == "raise-resume":
+        return replay_raise_resume(ctx, obj)
     if obj.get("monitor") in ("offc", "onc"):
         from .. import dense
         return dense.replay_getvalue(ctx, obj)
@@ -222,10 +224,286 @@ def twin_units_stream(ctx, rng, count, prop="C12"):
             ctx.nontrivial.add((modular_text, str(data)))
 
 
+# ------------------------------------------------------------------------------------------------- stream `raise-resume`
+# An online monitor in a loop that survives a failing sample: one assertion of the specification raises on some samples (sqrt / ln
+# of a sample outside the domain, division by zero) after other named assertions were already evaluated for that sample; the caller
+# catches the exception and keeps feeding samples.  After every update() that SUCCEEDED every name and every input variable is read
+# back.
+#   * input variable: the sample just given;
+#   * the raising assertion (no temporal operator below or beside the raising term: nothing of it has seen the failed sample): the
+#     stand-alone specification fed with the samples of the successful updates;
+#   * a name without temporal operators: the value of its formula for the sample just given (= its stand-alone specification,
+#     whatever samples that one has seen before);
+#   * a name with temporal operators: what "the same data" is after a failed update() is not said by the property - the samples of
+#     the successful updates only, or those of the failed ones too (the name may have been evaluated before the exception).  The
+#     stream accepts either reading (one reading per name for the whole run) and nothing else.  Temporal sub-formulas are not
+#     shared between names on different sides of the raising assertion (one operator per printed name: it would follow both).
+RR_B_OK = [3.0, 4.0, 5.0, 9.0]
+RR_VALUES = [-1.0, 0.0, 0.5, 1.0, 2.0, 3.0, 5.0]
+
+
+def _rr_stateful(f):
+    return any(M.stateful(g) for g in F.subformulas(f))
+
+
+def _rr_raiser(rng, g, mon):
+    """The raising assertion and the values of b on which it raises (on RR_B_OK it never does)."""
+    b = ("v", "b")
+    kind = rng.choice(["sqrt", "sqrt", "ln", "div", "div"] if mon == "ond" else ["sqrt", "sqrt", "ln"])
+    if kind == "div":
+        # (dense time: the division keeps the operands it could not divide and raises on every later update: nothing to read back)
+        den, bad = (b, [0.0]) if rng.random() < 0.5 else (("b", "sub", b, ("c", 2.0)), [2.0])
+        core = ("b", "div", ("v", rng.choice(["a", "c"])), den)
+    elif rng.random() < 0.5:
+        core, bad = ("u", kind, b), ([-1.0, -0.5] if kind == "sqrt" else [0.0, -1.0])
+    else:
+        core, bad = ("u", kind, ("b", "sub", b, ("c", 1.0))), ([0.0, -1.0, 0.5] if kind == "sqrt" else [1.0, 0.0, 0.5])
+    f = ("b", rng.choice(["ge", "le", "gt"]), core, ("c", rng.choice([0.0, 1.0, 2.0])))
+    if rng.random() < 0.3:
+        # a predicate evaluated before the raising term (no temporal operator: nothing is kept of the failed sample)
+        f = ("b", rng.choice(["and", "or"]), g.formula(0), f)
+    if rng.random() < 0.3:
+        f = ("tb1", rng.choice(["once", "hist"]), 0, rng.randint(1, 3), f)
+    return f, bad
+
+
+def rr_gen_case(rng):
+    mon = rng.choice(["ond", "ond", "onc"])
+    vs = rng.choice([["a"], ["a", "c"], ["a", "c", "b"], ["a", "b"]])
+    if mon == "ond":
+        g = F.Gen(rng, vs, ALLOW["ond"], max_bound=rng.choice([1, 2, 3]))
+    else:
+        from .. import dense
+        g = dense.DGen(rng, vs, dense.DENSE_ON - {"fn", "iffxor"}, max_bound=rng.choice([1, 2, 3]))
+    for _ in range(20):
+        k = rng.choice([1, 2, 2, 3])
+        pos = rng.choice([j for j in range(k + 1) for _w in range(1 + 3 * (j > 0))])      # mostly after at least one name
+        bodies = []
+        for j in range(k):
+            # every second name or so has no temporal operator: its value is that of the sample just given under every reading
+            d = rng.choice([0, 1, 1, 2, 3])
+            f = g.formula(d)
+            if rng.random() < 0.4:
+                for _t in range(20):
+                    if not _rr_stateful(f):
+                        break
+                    f = g.formula(rng.choice([0, 1, 2]))
+            bodies.append(f)
+        before = {F.to_text(x) for f in bodies[:pos] for x in F.subformulas(f) if M.stateful(x)}
+        after = {F.to_text(x) for f in bodies[pos:] for x in F.subformulas(f) if M.stateful(x)}
+        if not (before & after):
+            break
+    else:
+        return None
+    raiser, bad = _rr_raiser(rng, g, mon)
+    defs = [("p%d" % j, f) for j, f in enumerate(bodies)]
+    # a later name refers to an earlier one that has no temporal operator
+    for j in range(1, k):
+        if rng.random() < 0.25:
+            free = [nm for nm, f in defs[:j] if not _rr_stateful(f) and not any(x[0] == "v" and x[1].startswith("p") for x in F.subformulas(f))]
+            if free:
+                ref = ("v", rng.choice(free))
+                defs[j] = (defs[j][0], ("b", rng.choice(["and", "or"]), defs[j][1], rng.choice([ref, ("u", "not", ref)])))
+    defs.insert(pos, ("out", raiser))
+    n = rng.randint(3, 9)
+    # one to three failing samples, a successful one after the first of them
+    first = rng.randint(0, n - 2)
+    fail = {first} | {i for i in range(first + 1, n - 1) if rng.random() < 0.25}
+    if rng.random() < 0.3:
+        fail.add(n - 1)
+    data = {v: [rng.choice(RR_VALUES) for _ in range(n)] for v in ("a", "c")}
+    data["b"] = [rng.choice(bad) if i in fail else rng.choice(RR_B_OK) for i in range(n)]
+    half = None
+    if mon == "onc" and rng.random() < 0.3:
+        # two samples per update
+        half = {"a": [rng.choice(RR_VALUES) for _ in range(n)], "c": [rng.choice(RR_VALUES) for _ in range(n)],
+                "b": [rng.choice(RR_B_OK) for _ in range(n)]}
+    return {"monitor": mon, "defs": defs, "n": n, "data": data, "half": half}
+
+
+def _rr_texts(case):
+    inl = M.inline(case["defs"])
+    lines = ["%s = %s;" % (nm, F.to_text(b)) for nm, b in case["defs"]]
+    return inl, lines
+
+
+def _rr_args(case, i):
+    if case["monitor"] == "ond":
+        return (i, [(v, case["data"][v][i]) for v in ("a", "b", "c")])
+    h = case.get("half")
+    return tuple([v, [[i, case["data"][v][i]]] + ([[i + 0.5, h[v][i]]] if h else [])] for v in ("a", "b", "c"))
+
+
+def _rr_run(case, text, declare, steps, read=()):
+    """Feeds the samples of `steps`; an update() that raises is caught and the run goes on.  payload: (steps whose update()
+    succeeded, [[step, exception]], what update() returned at those steps, {name: get_value after each of them})."""
+    import copy
+    from ..common import HarnessError
+
+    def go():
+        spec = impl.make_spec(case["monitor"], text, ["a", "b", "c"], extra_decl=declare)
+        spec.parse()
+        ok, failed, outs, got = [], [], [], {nm: [] for nm in read}
+        for i in steps:
+            try:
+                r = spec.update(*_rr_args(case, i))
+            except (impl.CaseTimeout, HarnessError, MemoryError):
+                raise
+            except Exception as e:  # noqa: BLE001
+                failed.append([i, "%s: %s" % (type(e).__name__, str(e)[:80])])
+                continue
+            ok.append(i)
+            outs.append(copy.deepcopy(r))
+            for nm in read:
+                got[nm].append(copy.deepcopy(spec.get_value(nm)))
+        return ok, failed, outs, got
+    return impl.guarded(go)
+
+
+def _rr_same(mon, x, y):
+    if mon == "ond":
+        return common.canon(x) == common.canon(y)
+    try:
+        return len(x) == len(y) and all(float(p[0]) == float(q[0]) and common.canon(p[1]) == common.canon(q[1]) for p, q in zip(x, y))
+    except (TypeError, IndexError, ValueError):
+        return False
+
+
+def rr_rep(case):
+    inl, lines = _rr_texts(case)
+    return {"kind": "raise-resume", "monitor": case["monitor"], "defs": [[nm, F.to_proto(b)] for nm, b in case["defs"]], "n": case["n"],
+            "data": case["data"], "half": case.get("half"), "spec": "\n".join(lines),
+            "calls": "update() per step with a, b, c (dense time: [[step, value]] and, with `half`, [step + 0.5, value]); an update() "
+                     "that raises is caught and the next sample is fed; get_value() of every name after every update() that returned"}
+
+
+def rr_case_of_rep(obj):
+    return {"monitor": obj["monitor"], "defs": [(nm, F.from_proto(b)) for nm, b in obj["defs"]], "n": obj["n"],
+            "data": {k: [float(x) for x in v] for k, v in obj["data"].items()},
+            "half": {k: [float(x) for x in v] for k, v in obj["half"].items()} if obj.get("half") else None}
+
+
+def rr_check(ctx, case):
+    mon, n = case["monitor"], case["n"]
+    inl, lines = _rr_texts(case)
+    names = [nm for nm, _ in case["defs"]]
+    rep = rr_rep(case)
+    full = _rr_run(case, "\n".join(lines), [nm for nm in names if nm != "out"], range(n), read=names + ["a", "b", "c"])
+    rep["impl"] = full
+    if full[0] != "ok":
+        return Violation("%s monitor, failing samples caught: parse/update/get_value raised %r: %s" % (mon, full[1:], rep["spec"].replace("\n", " ")),
+                         rep, stream="raise-resume")
+    ok, failed, _outs, got = full[1]
+    if not failed:
+        ctx.count("raise-resume:no-update-raised")
+    resumed = [i for i in ok if failed and i > failed[0][0]]
+    if not resumed:
+        ctx.count("raise-resume:no-successful-update-after-the-failed-one")
+        return None
+    ctx.count("raise-resume:read-back-after-resume", len(resumed))
+    used = {x for nm in names for x in F.variables(inl[nm])}
+    for v in ("a", "b", "c"):
+        if v not in used:
+            continue        # (as in the other streams: the input variables that the specification reads)
+        for j, i in enumerate(ok):
+            want = _rr_args(case, i)[1][("a", "b", "c").index(v)][1] if mon == "ond" else _rr_args(case, i)[("a", "b", "c").index(v)][1]
+            have = got[v][j]
+            if not (_rr_same(mon, have, want)):
+                return Violation("%s monitor, update() raised at step(s) %s and the run went on: after update %d get_value(%r) returns %r, the data supplied is %r: %s"
+                                 % (mon, [f_[0] for f_ in failed], i, v, have, want, rep["spec"].replace("\n", " ")), rep, stream="raise-resume/input")
+    for nm in names:
+        text = "%s = %s" % (nm, F.to_text(inl[nm]))
+        decl = [nm] if nm != "out" else []
+        readings = [("the samples of the successful updates", ok)]
+        if nm != "out" and _rr_stateful(inl[nm]):
+            readings.append(("all samples", range(n)))
+        ctx.count("raise-resume:%s" % ("raising-assertion" if nm == "out" else "temporal-name" if len(readings) > 1 else "memoryless-name"))
+        wants = []
+        for what, steps in readings:
+            alone = _rr_run(case, text, decl, steps)
+            ctx.evaluations += 1
+            if alone[0] != "ok" or [i for i in ok if i not in alone[1][0]]:
+                return Violation("stand-alone specification %s fed with %s raised: %r" % (text, what, alone[1:]), dict(rep, name=nm, standalone=alone),
+                                 stream="raise-resume")
+            a_ok, _f, a_outs, _g = alone[1]
+            wants.append((what, [a_outs[a_ok.index(i)] for i in ok]))
+        have = got[nm]
+        if not any(all(_rr_same(mon, h_, w_) for h_, w_ in zip(have, w)) for _what, w in wants):
+            what, w = wants[0]
+            j = next(j for j in range(len(ok)) if not all(_rr_same(mon, have[j], w2[j]) for _x, w2 in wants) or not _rr_same(mon, have[j], w[j]))
+            return Violation("%s monitor, update() raised at step(s) %s and the run went on: after update %d get_value(%r) is %r, the stand-alone specification '%s' fed with %s gives %r%s"
+                             % (mon, [f_[0] for f_ in failed], ok[j], nm, have[j], text, what, w[j],
+                                "".join(" (fed with %s: %r)" % (wh, w2[j]) for wh, w2 in wants[1:])),
+                             dict(rep, name=nm, ok_steps=ok, failed=failed, have=have, standalone=[[wh, w2] for wh, w2 in wants]),
+                             stream="raise-resume")
+    if mon == "ond":
+        if any(disc.nontrivial(got[nm]) for nm in names):
+            ctx.nontrivial.add((mon, rep["spec"], str(case["data"])))
+    else:
+        ctx.nontrivial.add((mon, rep["spec"], str(case["data"]), str(case.get("half"))))
+    return None
+
+
+def rr_shrink(ctx, case, budget=40):
+    """Greedy: drop names, drop leading / trailing samples, keeping a violation."""
+    def fails(c):
+        try:
+            return rr_check(Ctx(ctx.id, ctx.tier, ctx.seed), c) is not None
+        except common.HarnessError:
+            return False
+    changed = True
+    while changed and budget > 0:
+        changed = False
+        cands = []
+        for j, (nm, _b) in enumerate(case["defs"]):
+            if nm != "out" and not any(x == ("v", nm) for _n, b in case["defs"] for x in F.subformulas(b)):
+                cands.append(dict(case, defs=case["defs"][:j] + case["defs"][j + 1:]))
+        if case["n"] > 2:
+            cut = lambda lo, hi: dict(case, n=hi - lo, data={k: v[lo:hi] for k, v in case["data"].items()},  # noqa: E731
+                                      half={k: v[lo:hi] for k, v in case["half"].items()} if case.get("half") else None)
+            cands += [cut(0, case["n"] - 1), cut(1, case["n"])]
+        if case.get("half"):
+            cands.append(dict(case, half=None))
+        for c in cands:
+            budget -= 1
+            if budget < 0:
+                break
+            if fails(c):
+                case, changed = c, True
+                break
+    return case
+
+
+def raise_resume_stream(ctx, rng, count):
+    for _ in range(count):
+        c = rr_gen_case(rng)
+        if c is None:
+            continue
+        ctx.evaluations += 1
+        ctx.count("stream:raise-resume")
+        ctx.count("monitor:" + c["monitor"])
+        v = rr_check(ctx, c)
+        if v is None:
+            ctx.traces_validated += 1
+            continue
+        small = rr_shrink(ctx, c)
+        v = rr_check(ctx, small) or v
+        ctx.violations.append(v)
+        if len(ctx.violations) >= 3:
+            return
+
+
+def replay_raise_resume(ctx, obj):
+    v = rr_check(Ctx(ctx.id, ctx.tier, ctx.seed), rr_case_of_rep(obj))
+    return (v is None), (v.what if v else "after the failed update() get_value agrees with the stand-alone specifications")
+
+
 def run(ctx):
     explore(ctx, ctx.subrng("getv"), ctx.budget(1200, 8000))
     if not ctx.violations:
         twin_units_stream(ctx, ctx.subrng("twin-units"), ctx.budget(40, 300))
+    if not ctx.violations:
+        raise_resume_stream(ctx, ctx.subrng("raise-resume"), ctx.budget(120, 800))
     if not ctx.violations:
         try:
             from .. import dense
